@@ -15,7 +15,8 @@ const char* const PROP_ID = "C17";
 
 namespace {
 // ".a.txt" / "..b.dat" begin with dots that are NOT a "./" prefix: they must never be confused with "a.txt" / "b.dat"
-const char* pool[] = {"a.txt", "A.TXT", "b.dat", "B.dat", "c", "readme.TXT", "d.txt", "trk1", "TRK1", "e.map", "a.TXT", "song", "x_y.bmp", "X_Y.BMP", ".a.txt", "..b.dat", "q{1}.dat", "q[1].dat"};   // the last two differ only in bytes that a sloppy upper-casing maps onto each other
+const char* pool[] = {"a.txt", "A.TXT", "b.dat", "B.dat", "c", "readme.TXT", "d.txt", "trk1", "TRK1", "e.map", "a.TXT", "song", "x_y.bmp", "X_Y.BMP", ".a.txt", "..b.dat", "q{1}.dat", "q[1].dat",
+	"map_1.txt", "mapa.txt", "MAPB.TXT", "map^2.txt", "map`.txt"};   // one prefix, then a byte between the letter cases against letters: the orders by lower- and by upper-cased bytes disagree on these   // the last two differ only in bytes that a sloppy upper-casing maps onto each other
 const size_t poolN = sizeof pool / sizeof pool[0];
 
 struct Arch { std::string file; bool isVol; bool loaded; std::vector<std::string> names; std::vector<std::vector<uint8_t>> data; unsigned unusedSlots = 0; uint32_t unusedFill = 0; };
